@@ -235,10 +235,33 @@ pub async fn run_fault_case(case: &C09Case, obs: &mut Obs) {
 	// arbitrary bytes may be a harmless message (e.g. a notification): then nothing must have happened
 	if benign_possible && w.mc.client.is_connected() {
 		let outs = w.outcomes().await;
+		// the bytes may happen to be a legitimate answer to something pending: then the completion must carry exactly that answer
+		let sent: Value = match &case.fault {
+			Fault::Bytes(b) => serde_json::from_slice(b).unwrap_or(Value::Null),
+			_ => Value::Null,
+		};
+		let candidates: Vec<Value> = match &sent {
+			Value::Array(a) => a.clone(),
+			v => vec![v.clone()],
+		};
+		// bytes that serde_json::Value cannot read (e.g. invalid UTF-8 inside an ignored member) but the response
+		// parser accepts: nothing to compare with, not judged
+		let judgeable = !sent.is_null();
 		for (i, (o, want)) in outs.iter().zip(want_before.iter()).enumerate() {
-			if want.is_none() {
-				obs.check(o.is_none() || matches!(o, Some(Outcome::Failed(_))), "c09/pending-op-completed-by-arbitrary-bytes", || format!("op#{i} {o:?}; {}", desc(&w)));
+			if want.is_some() || !judgeable {
+				continue;
 			}
+			let ok = match o {
+				None | Some(Outcome::Failed(_)) => true,
+				Some(Outcome::CallOk(v)) | Some(Outcome::SubOk(v)) => candidates.iter().any(|c| w.ops[i].wire_ids.contains(&c.get("id").cloned()) && c.get("result") == Some(v)),
+				Some(Outcome::CallErr(code, _)) => candidates.iter().any(|c| w.ops[i].wire_ids.contains(&c.get("id").cloned()) && c["error"]["code"] == json!(code)),
+				Some(Outcome::BatchOk(entries)) => entries.iter().enumerate().all(|(k, e)| match e {
+					Ok(v) => candidates.iter().any(|c| w.ops[i].wire_ids.get(k) == Some(&c.get("id").cloned()) && c.get("result") == Some(v)),
+					Err((code, _)) => *code == 0 || candidates.iter().any(|c| w.ops[i].wire_ids.get(k) == Some(&c.get("id").cloned()) && c["error"]["code"] == json!(code)),
+				}),
+				Some(_) => false,
+			};
+			obs.check(ok, "c09/pending-op-completed-by-arbitrary-bytes", || format!("op#{i} {o:?}; {}", desc(&w)));
 		}
 		obs.class("bytes-benign");
 		let panics = crate::panics::take_local();
@@ -471,6 +494,19 @@ pub fn enumerated_cases(tier: Tier) -> Vec<C09Case> {
 	out
 }
 
+/// arbitrary bytes delivered to a client with pending work (fuzz target)
+pub fn bytes_oracle(data: &[u8]) -> Option<String> {
+	if data.len() > 20_000 {
+		return None;
+	}
+	let case = C09Case { pre: vec![Pre::Call { answered: false }, Pre::Batch { n: 2, answered: false }, Pre::Subscribe { answered: true }], fault: Fault::Bytes(data.to_vec()), close_stalls: false, send_stalls: false, during: vec![], after: vec![0], id_kind: IdK::Number };
+	let mut obs = Obs::new();
+	let rt = rt();
+	rt.block_on(run_fault_case(&case, &mut obs));
+	let known = load_known_findings();
+	obs.failures.into_iter().find(|f| !tolerated_signature(&known, "C09", &f.signature)).map(|f| format!("{} — {}", f.signature, f.detail))
+}
+
 pub fn corpus_replay(ctx: &mut Ctx) {
 	let dir = verif_root().join("corpus/c09_client_rx");
 	let mut n = 0u64;
@@ -504,6 +540,7 @@ pub fn check(ctx: &mut Ctx) {
 	ctx.exhaustive = false;
 	ctx.run_sub(&Faults);
 	corpus_replay(ctx);
+	fuzz_campaign(ctx, "c09_client_rx", 150_000, 512);
 }
 
 pub fn replay(file: &serde_json::Value) -> Option<i32> {
